@@ -3326,7 +3326,7 @@ class SSHConnection(SSHPacketHandler, asyncio.Protocol):
         if dest_port == 0:
             dest_port = listen_port
 
-        self._local_listeners[listen_host, listen_port] = listener
+        self._add_local_listener((listen_host, listen_port), listener)
 
         return listener
 
@@ -3373,7 +3373,7 @@ class SSHConnection(SSHPacketHandler, asyncio.Protocol):
             self.logger.debug1('Failed to create local UNIX listener: %s', exc)
             raise
 
-        self._local_listeners[listen_path] = listener
+        self._add_local_listener(listen_path, listener)
 
         return listener
 
@@ -3392,6 +3392,16 @@ class SSHConnection(SSHPacketHandler, asyncio.Protocol):
 
         return SSHForwarder(cast(SSHForwarder, peer),
                             extra={'interface': interface})
+
+    def _add_local_listener(self, listen_key: ListenKey,
+                            listener: SSHListener) -> None:
+        """Register a local listener to close when the connection closes"""
+
+        if self._transport:
+            self._local_listeners[listen_key] = listener
+        else:
+            # The connection was lost while the listener was being set up
+            listener.close()
 
     def close_forward_listener(self, listen_key: ListenKey) -> None:
         """Mark a local forwarding listener as closed"""
@@ -5407,7 +5417,7 @@ class SSHClientConnection(SSHConnection):
         if listen_port == 0:
             listen_port = listener.get_port()
 
-        self._local_listeners[listen_host, listen_port] = listener
+        self._add_local_listener((listen_host, listen_port), listener)
 
         return listener
 
@@ -5458,7 +5468,7 @@ class SSHClientConnection(SSHConnection):
             self.logger.debug1('Failed to create local UNIX listener: %s', exc)
             raise
 
-        self._local_listeners[listen_path] = listener
+        self._add_local_listener(listen_path, listener)
 
         return listener
 
@@ -5677,7 +5687,7 @@ class SSHClientConnection(SSHConnection):
         if listen_port == 0:
             listen_port = listener.get_port()
 
-        self._local_listeners[listen_host, listen_port] = listener
+        self._add_local_listener((listen_host, listen_port), listener)
 
         return listener
 
@@ -6525,7 +6535,7 @@ class SSHServerConnection(SSHConnection):
         self.logger.info('Created TCP listener on %s',
                          (listen_host, listen_port))
 
-        self._local_listeners[listen_host, listen_port] = listener
+        self._add_local_listener((listen_host, listen_port), listener)
         self._report_global_response(result)
 
     def _process_cancel_tcpip_forward_global_request(
@@ -6658,7 +6668,7 @@ class SSHServerConnection(SSHConnection):
 
         self.logger.info('Created UNIX listener on %s', listen_path)
 
-        self._local_listeners[listen_path] = cast(SSHListener, listener)
+        self._add_local_listener(listen_path, cast(SSHListener, listener))
         self._report_global_response(True)
 
     def _process_cancel_streamlocal_forward_at_openssh_dot_com_global_request(
